@@ -24,6 +24,9 @@ var leafFuncs = map[string][]string{
 	"internal/phase3": {"medianOf", "orderedLayers", "orderedEdgeNodes"},
 	"internal/phase4": {"crosses", "networkSimplexProcessor.distCenterPoints", "omega", "brandesKoepfPositioner.space", "withinOutermostPos", "outermostPos"},
 	"internal/phase5": {"startPoint", "endPoint", "straight", "nonTerminalPoint", "isVerticallyAligned"},
+	// the numerical geometry has no model; its leaf functions are translated so that theorems can be stated about the code's own
+	// Bernstein basis, curve evaluation, power-basis coefficients, orientation test and linear solver
+	"internal/geom": {"b30", "b31", "b30pb31", "b32", "b33", "b32pb33", "ctrlp.coeff", "ctrlp.curvep", "orientation", "aeq0", "solve1"},
 }
 
 type trErr struct{ msg string }
@@ -53,6 +56,8 @@ func (t *tr) leanType(ty types.Type) string {
 		return "GEdge"
 	case strings.HasSuffix(s, "internal/graph.Layer"):
 		return "GLayer"
+	case strings.HasSuffix(s, "internal/geom.P"):
+		return "GP"
 	}
 	switch u := ty.Underlying().(type) {
 	case *types.Basic:
@@ -145,6 +150,11 @@ func (t *tr) expr(e ast.Expr) string {
 		if x.Name == "true" || x.Name == "false" {
 			return x.Name
 		}
+		if x.Name == "nil" {
+			if _, ok := t.typeOf(x).(*types.Basic); ok { // untyped nil in a slice context
+				return "[]"
+			}
+		}
 		return x.Name + "_"
 	case *ast.SelectorExpr:
 		if id, ok := x.X.(*ast.Ident); ok && id.Name == t.recv && t.recv != "" {
@@ -213,6 +223,17 @@ func (t *tr) expr(e ast.Expr) string {
 				es = append(es, t.expr(el))
 			}
 			return "[" + strings.Join(es, ", ") + "]"
+		}
+		if strings.HasSuffix(t.typeOf(x).String(), "internal/geom.P") && len(x.Elts) == 2 {
+			var fs []string
+			for _, el := range x.Elts {
+				kv, ok := el.(*ast.KeyValueExpr)
+				if !ok {
+					bad("composite literal %s", src(x))
+				}
+				fs = append(fs, src(kv.Key)+" := "+t.expr(kv.Value))
+			}
+			return "({ " + strings.Join(fs, ", ") + " } : GP)"
 		}
 		bad("composite literal %s", src(x))
 	case *ast.IndexExpr:
